@@ -1,4 +1,4 @@
-\* MC_GoChannel_u_aswritten.cfg2
+\* unbuffered, AS WRITTEN: must violate DeliveredExactlyOnce (finding F3: hand-off slot overwritten)
 SPECIFICATION Spec
 CONSTANTS
   Cap = 0
